@@ -359,10 +359,18 @@ def _whole_statement_deletes(prog: Program, res: Result) -> None:
     a while loop whose test is false, or an if whose TAKEN branch is empty.  Where the taken branch has statements,
     only the statements of the other branch are dead.  Path condition at every `yield <the statement>, None`."""
     from ..pathcond import And, Or, Not
-    fn = prog.funcs.get(("fixes", "delete_unreachable_code"))
-    if fn is None:
-        raise AnalysisError("anchor fixes.delete_unreachable_code not found")
-    loops = [l for l in walk_own(fn.node) if isinstance(l, ast.For) and isinstance(l.target, ast.Name) and "iter_bodies" in norm(l.iter)]
+    for key in (("fixes", "delete_unreachable_code"), ("fixes", "remove_dead_ifs")):
+        fn = prog.funcs.get(key)
+        if fn is None:
+            raise AnalysisError(f"anchor {key[0]}.{key[1]} not found")
+        _whole_statement_deletes_in(prog, res, fn)
+
+
+def _whole_statement_deletes_in(prog: Program, res: Result, fn: Func) -> None:
+    from ..pathcond import And, Or, Not
+    # the loop over the statements whose test is evaluated: its variable's .test is handed to literal_value
+    loops = [l for l in walk_own(fn.node) if isinstance(l, ast.For) and isinstance(l.target, ast.Name)
+             and any(isinstance(c, ast.Call) and norm(c.func).endswith("literal_value") and c.args and norm(c.args[0]) == f"{l.target.id}.test" for c in ast.walk(l))]
     if not loops:
         res.undecided("R16.11", fn.loc(), fn.fq, "deletion of whole if/while statements", "loop over the bodies not found")
         return
@@ -388,13 +396,14 @@ def _whole_statement_deletes(prog: Program, res: Result) -> None:
 
         def goal(w):
             e = lambda text: pa.formula(ast.parse(text, mode="eval").body, w)
-            return Or(And(e(f"isinstance({subj}, ast.While)"), Not(e(tv))),
+            # a while loop whose test is false still runs its else clause
+            return Or(And(e(f"isinstance({subj}, ast.While)"), Not(e(tv)), Not(e(f"{subj}.orelse"))),
                       And(e(tv), Not(e(f"{subj}.body"))),
                       And(Not(e(tv)), Not(e(f"{subj}.orelse"))))
         ok, why = pa.holds_at(y, goal)
         res.decide(ok, "R16.11", fn.loc(y), fn.fq, f"{short(y, 50)} under {' / '.join(x[:60] for x in _conds_of(y, loop))}",
-                   "the statement is deleted only when its test is false (while) or the taken branch is empty" if ok else
-                   "the whole statement is deleted although the branch that runs has statements: live code is removed with the dead branch")
+                   "the statement is deleted only when its test is false and it has no else clause (while) or the taken branch is empty (if)" if ok else
+                   "the whole statement is deleted although a part of it runs (the taken branch of an if, the else clause of a `while <false>`): live code is removed with the dead part")
     if n == 0:
         res.ok("R16.11", fn.loc(loop), fn.fq, "deletion of whole if/while statements", "no whole-statement deletion", trivial=True)
 
@@ -974,6 +983,9 @@ def _positive(test: ast.AST) -> bool:
 from ..selftest import Variant  # noqa: E402
 
 VARIANTS: List[Variant] = [
+    Variant("false-while-deleted-with-its-else", "FIRE", "fixes",
+            "            if not node.orelse:  # The else clause of a loop that runs zero times does run\n                yield node, None, transaction\n", "            yield node, None, transaction\n", "R16.11"),
+    Variant("dead-while-deleted-with-its-else", "FIRE", "fixes", "        if isinstance(node, ast.While) and not value and not node.orelse:", "        if isinstance(node, ast.While) and not value:", "R16.11"),
     Variant("for-emptiness-by-list", "SILENT", "core", "            if not any(True for _ in literal_value(node.iter)):", "            if not list(literal_value(node.iter)):"),
     Variant("for-emptiness-by-truth-value", "FIRE", "core", "            if not any(True for _ in literal_value(node.iter)):", "            iterable = literal_value(node.iter)\n            if not iterable:", "R16.4"),
     Variant("admission-test-in-a-helper", "SILENT", "parsing", '            nonreturn_children = []\n            for child in node.body:\n                if core.is_blocking(child):\n                    if not isinstance(child, ast.Return):\n                        # For example a raise, or an if where all branches return\n                        nonreturn_children.append(child)\n                    break\n\n                nonreturn_children.append(child)\n            return_children = [child.value for child in core.walk(node, ast.Return)]\n\n            if not any(\n                core.has_side_effect(child, safe_callables)\n                for child in itertools.chain(nonreturn_children, return_children)\n            ):\n                safe_callable_nodes.add(node)', '            if _definition_is_pure(node, safe_callables):\n                safe_callable_nodes.add(node)', extra=[("parsing", 'def safe_callable_names(root: ast.Module) -> Collection[str]:', 'def _definition_is_pure(node, safe_callables):\n    pass\n    nonreturn_children = []\n    for child in node.body:\n        if core.is_blocking(child):\n            if not isinstance(child, ast.Return):\n                nonreturn_children.append(child)\n            break\n\n        nonreturn_children.append(child)\n    return_children = [child.value for child in core.walk(node, ast.Return)]\n\n    if any(\n        core.has_side_effect(child, safe_callables)\n        for child in itertools.chain(nonreturn_children, return_children)\n    ):\n        return False\n    pass\n    return True\n\n\ndef safe_callable_names(root: ast.Module) -> Collection[str]:')]),
